@@ -260,7 +260,7 @@ def render_body(exp, specs, layouts, paths=None):
     o = [PRELUDE, vexpr.RUST_SPEC_FNS, struct_gens(exp)]
     for k, (sp, layout) in enumerate(zip(specs, layouts)):
         uses = ['use super::vek::mat::repr_c::%s::*;' % layout, 'use super::vek::vec::repr_c::*;', 'use super::vek::quaternion::repr_c::*;',
-                'use super::vek::geom::repr_c::*;', 'use super::vek::bezier::repr_c::*;', 'use super::vek::transform::repr_c::*;',
+                'use super::vek::geom::repr_c::*;', 'use super::vek::geom::FrustumPlanes;', 'use super::vek::bezier::repr_c::*;', 'use super::vek::transform::repr_c::*;',
                 'use super::vek::transition::*;', 'use super::vek::ops::*;', 'use core::ops::*;', 'use super::*;']
         for n_ in (2, 3, 4):      # the aliases bezier.rs / geom.rs use
             uses.append('use super::vek::mat::repr_c::row_major::Mat%d as Rows%d;' % (n_, n_))
